@@ -86,6 +86,7 @@ def header_coverage(ctx, s):
     w = layout.const_writes(ctx, s, rta, ("param", 3))
     miss, n = layout.covered(ctx, s, rta, w, 4)
     report(ctx, s, rta, "tags-header", 4, miss, n)
+    layout.reserved_slot_written(ctx, s, parsers.JP + "read_tag", 4, 3)
     ctx.functions.update({fp.path, pj.path, ffp.path, fpj.path, tfp.path, rta.path})
 
 
@@ -125,6 +126,7 @@ def rest(ctx, s):
           "the writer emits exactly the seven member names the parser dispatches on" if okn else
           "writer names %s differ from the parser's" % sorted(n_.decode() for n_ in names))
     escaping.unescape_writes(ctx, s)
+    escaping.utf8_width_table(ctx, s)
     escaping.escape_table(ctx, s)
     escaping.writer_escapes(ctx, s, "pocket_types::Event::as_json")
     escaping.writer_escapes(ctx, s, "pocket_types::Tags::as_json")
